@@ -79,6 +79,8 @@ def canon(v):
         return tuple(canon(e) for e in v)
     if isinstance(v, dict):
         return ("<dict>", tuple(sorted((str(k), canon(x)) for k, x in v.items())))
+    if hasattr(v, "__dataclass_fields__"):
+        return f"<{type(v).__name__} {v!r}>"  # e.g. pipefunc Resources handed to the function
     if isinstance(v, (set, frozenset)):
         return ("<set>", tuple(sorted(map(repr, v))))
     return v
@@ -306,6 +308,23 @@ class Fn:
         end = k.yield_point(f"ret:{name}")
         sim.calls.append(CallRec(name, args, start, end, tname, sim.attempt, False))
         return self.build(args)
+
+
+class ResFn:
+    """Picklable `resources=` callable: with resources_scope='map' it sees the WHOLE inputs of the map."""
+
+    def __init__(self, param):
+        self.param = param
+
+    def __call__(self, kwargs):
+        from pipefunc.resources import Resources
+
+        v = kwargs[self.param]
+        try:
+            n = len(v)
+        except TypeError:
+            n = 0
+        return Resources(cpus=1 + n)
 
 
 class Uncopyable:
